@@ -73,7 +73,7 @@ def impl_gate(impl, d):
 
 
 def model_take(drv, cid, d):
-    qs = E.eints(d['qubits'])
+    qs = E.eints([d['c'], d['t']] if d['kind'] == 'cnot' else d['qubits'])
     if d['kind'] == 'gen':
         return drv.ask('circ %s gen %s %s' % (cid, qs, E.epauli(O.to_g(d['gen'][0]), d['gen'][1])))
     if d['kind'] == 'bmap':
